@@ -88,6 +88,8 @@ parking_lot = {{ path = "{v}/shims/parking_lot" }}
 
 def overlay_kani(sc, spec):
     """Overlay the environment models and the harness modules on the scratch copy."""
+    if not os.path.exists(os.path.join(sc.sr, "Cargo.lock")) and os.path.exists("/repo/Cargo.lock"):
+        shutil.copy("/repo/Cargo.lock", os.path.join(sc.sr, "Cargo.lock"))  # git worktrees of /repo do not carry the untracked lock file
     for fn in ("Cargo.toml", "Cargo.lock"):
         shutil.copy(os.path.join(sc.sr, fn), os.path.join(sc.dir, fn + ".pristine"))
     with open(os.path.join(sc.sr, "Cargo.toml"), "a") as f:
@@ -555,10 +557,15 @@ def main():
     seed = int(os.environ.get("VERIF_SEED", "0") or 0)
     spec = PROPS[a.pid]
     if spec["engine"] == "kani":
-        rc = run_kani_property(a.pid, a.tier, seed, a.replay)
+        try:
+            rc = run_kani_property(a.pid, a.tier, seed, a.replay)
+        except Exception:  # noqa: BLE001 - an internal error is never a verdict
+            import traceback
+            print(f"INCONCLUSIVE property={a.pid}: internal error in the runner: {traceback.format_exc()[-1200:]}")
+            rc = 2
     else:
-        import mirsym_driver
-        rc = mirsym_driver.run(a.pid, a.tier, seed, a.replay)
+        cmd = ["python3-vt", os.path.join(VERIF, "mirsym", "driver.py"), a.pid, "--tier", a.tier] + (["--replay", a.replay] if a.replay else [])
+        rc = subprocess.call(cmd)
     sys.exit(rc)
 
 
